@@ -64,7 +64,7 @@ def expected_outcome(contract, args, reads=None):
     """Evaluate the contract on concrete arguments.
     -> ('return', value) | ('raise', cls) | ('post', callable) | ('none', None)"""
     st = State()
-    ctx = Ctx(st, {k: to_sym_world(v) for k, v in args.items()})
+    ctx = Ctx(st, {k: (v if isinstance(v, SObj) else to_sym_world(v)) for k, v in args.items()})
     ctx.reads = dict(reads or {})
     for (mod, var, _spec) in contract.reads:
         if var not in ctx.reads:
@@ -158,16 +158,17 @@ def confirm(contract, model):
         return {'confirmed': False, 'why': 'no model'}
     if _has_abstract(model):
         return {'confirmed': False, 'why': 'model contains abstract values', 'args': _printable(model)}
-    args = {k: values.decode(values.encode(v)) for k, v in model['args'].items()}
     reads = model.get('globals') or {}
     try:
+        args = {k: desc_to_sym(values.encode(v)) for k, v in model['args'].items()}
         exp, ctx = expected_outcome(contract, args, reads)
-    except (EngineError, OutOfSubset, Infeasible, ValueError, Raised) as exc:
+        job = make_job(contract, model['args'], reads)
+    except Exception as exc:   # never let a replay problem kill the run: the verdict stands, unconfirmed
         return {'confirmed': False, 'why': 'contract not concretely evaluable: %r' % (exc,), 'args': _printable(model)}
-    obs = native_calls([make_job(contract, args, reads)])[0]
+    obs = native_calls([job])[0]
     ok = agrees(contract, exp, ctx, obs)
     return {'confirmed': ok is False, 'expected': describe(exp), 'observed': obs,
-            'args': _printable(model), 'job': make_job(contract, args, reads)}
+            'args': _printable(model), 'job': job}
 
 
 def _has_abstract(v):
